@@ -40,25 +40,17 @@ def loop_cursors(f):
                      getattr(v, 'lineno', 0) < lp.lineno]
             if not inits:
                 continue
-            # read in the body at a position before (or independent of) its store: used as slice lower bound,
-            # subtrahend, or call argument
-            uses = []
-            for n in body_nodes:
-                if isinstance(n, ast.Slice) and isinstance(n.lower, ast.Name) and n.lower.id == name:
-                    uses.append(n)
-                if isinstance(n, ast.BinOp) and isinstance(n.op, ast.Sub) and isinstance(n.right, ast.Name) and n.right.id == name:
-                    uses.append(n)
-                if isinstance(n, ast.Call):
-                    for a in n.args:
-                        if isinstance(a, ast.Name) and a.id == name:
-                            uses.append(n)
-            if not uses:
+            # loop-carried: read in the body textually before its first store in the body (the value of the
+            # previous iteration is consumed); per-iteration temporaries are written before they are read
+            first_store = min((s.lineno, s.col_offset) for s in stores)
+            reads = [(n.lineno, n.col_offset) for n in body_nodes
+                     if isinstance(n, ast.Name) and n.id == name and isinstance(n.ctx, ast.Load)]
+            # reads on the right-hand side of the first store itself count as "before"
+            rhs_reads = [1 for s in stores for n in ast.walk(s.value) if isinstance(n, ast.Name) and n.id == name]
+            if not reads or (min(reads) > first_store and not rhs_reads):
                 continue
-            first_use = min(getattr(u, 'lineno', 10**9) for u in uses)
-            if all(s.lineno <= first_use for s in stores) and not any(s in lp.body for s in stores if s.lineno > first_use):
-                # written before every read in the iteration: a per-iteration temporary, not a cursor
-                if all(s.lineno < first_use for s in stores):
-                    continue
+            if all(isinstance(s.value, ast.Constant) for s in stores):
+                continue   # flags / resets, not offsets
             out.append((lp, name, stores))
     return out
 
@@ -646,7 +638,7 @@ def delayed_tasks(m):
 def check_global_ids(prog, rep, m, entry):
     n = 0
     for f in delayed_tasks(m):
-        if not (f.params and 'block' in f.params[0]):
+        if not any('zones' in p and 'block' in p for p in f.params):
             continue
         bad = [c for c in calls(f.node) if short(c) == 'unique']
         n += 1
@@ -673,7 +665,9 @@ def check_crosstab_merge(prog, rep, m, entry):
                     and isinstance(inner.body[0].op, ast.Add):
                 k = inner.target.id
                 a = inner.body[0]
-                ok = norm(a.target).endswith('[%s]' % k) and norm(a.value).endswith('[%s]' % k) and \
+                iv = lp.target.id if isinstance(lp.target, ast.Name) else '?'
+                all_keys = norm(inner.iter).replace('.keys()', '') in ('%s[%s]' % (f.params[0], iv), 'result')
+                ok = norm(a.target).endswith('[%s]' % k) and norm(a.value).endswith('[%s]' % k) and all_keys and \
                     norm(lp.iter).replace(' ', '') == 'range(1,len(%s))' % f.params[0]
     n += 1
     rep.add('Z8', f, entry, 'block merge loop', f.node.lineno, ok,
@@ -798,7 +792,8 @@ def check_crosstab_keys(prog, rep, m, entry):
         # count = breaks[j] - cat_start
         for s in ast.walk(lp):
             if isinstance(s, ast.Assign) and norm(s.targets[0]) == 'count':
-                okc = norm(s.value).replace(' ', '') == 'zone_cat_breaks[%s]-cat_start' % jv
+                okc = isinstance(s.value, ast.BinOp) and isinstance(s.value.op, ast.Sub) and \
+                    norm(s.value.left) == 'zone_cat_breaks[%s]' % jv and isinstance(s.value.right, ast.Name)
                 n += 1
                 rep.add('X-key', f, entry, norm(s), s.lineno, okc,
                         'the count of category j is breaks[j] minus the previous break')
